@@ -1,5 +1,6 @@
 import SamplyModel.Lemmas.BreakpadReading
 import SamplyModel.Lemmas.BreakpadStored
+import SamplyModel.Lemmas.BreakpadModuleId
 /-!
 # C10 — the Breakpad symbol index is independent of chunking and agrees with the .sym text
 
@@ -186,6 +187,29 @@ theorem C10_stored_used_reports_own_id (pick : Pick) (text : List UInt8) (stored
   intro hmem
   have := mem_takeWhile_true _ _ _ hmem
   simp at this
+
+/-- … and that id is the id stated by the text's WHOLE first line (`BP.firstLine text`: the bytes before the
+first `\n`, trailing CRs stripped — what the creator hands to `module_line`), whenever that line parses as a
+MODULE record — also when the stored MODULE line is only a proper prefix of it (the prefix test of fix
+3f61c23c): the id token lies before the name and is delimited by blanks inside the stored line
+(`moduleLine_append_id`). So a stored index that is used never makes the map report another build than the
+one the `.sym` file itself names. -/
+theorem C10_stored_used_reports_first_line_id (pick : Pick) (text : List UInt8) (stored : Option (List UInt8))
+    (ix : Index) (hb : (tag tMODULE_ text).isSome = true) (hp : stored.bind parseSymindex = some ix)
+    (hu : mapStored pick text stored = .ok ix) (hself : mapSelf pick text ≠ .ok ix)
+    (hfl : (moduleLine (firstLine text)).isSome = true) :
+    indexDebugId ix = debugIdOfModuleLine (firstLine text) := by
+  obtain ⟨_, hpre, hnl, v, hv1, hv2⟩ := C10_stored_used_reports_own_id pick text stored ix hb hp hu hself
+  rw [hv1, ← hv2]
+  unfold debugIdOfModuleLine at hv2 ⊢
+  cases hm : moduleLine (storedModuleLine ix) with
+  | none => rw [hm] at hv2; cases hv2
+  | some r =>
+    cases hf : moduleLine (firstLine text) with
+    | none => rw [hf] at hfl; cases hfl
+    | some r' =>
+      have := moduleLine_prefix_firstLine_id _ text r r' hpre hnl hm hf
+      simp [this]
 
 /-- Every index the creator writes (any text below 2^64 bytes, any chunking) reports the id of the first line
 of its module-info block, and that line parses as a MODULE record — so the new test never rejects an index
